@@ -306,7 +306,12 @@ func (w *worker[T, JobType]) processNextJob() error {
 		return nil
 	}
 
-	j.setAckId(ackId)
+	// only acknowledgeable queues hand out an id; a job of an in-memory queue has a handle whose
+	// Close may read the field concurrently
+	if ackId != "" {
+		j.setAckId(ackId)
+	}
+
 	dispatched = true
 
 	// then job will be process by the processSingleJob function inside spawnWorker
